@@ -300,8 +300,68 @@ def inline_fresh_temporaries(tree: ast.Module, relpath: str):
                 break
 
 
+def shape_table(root: str) -> dict:
+    """{relpath: {"module_names": [...], "functions": {path: [fingerprints]}, "nested": {path: [nested def names]}}} (tools/gen_local_names.py)."""
+    from . import canon_rw as rw
+    table = {}
+    pkg = os.path.join(root, "apischema")
+    for dp, dn, fns in os.walk(pkg):
+        dn[:] = sorted(d for d in dn if d != "__pycache__")
+        for f in sorted(fns):
+            if not f.endswith(".py"):
+                continue
+            path = os.path.join(dp, f)
+            rel = os.path.relpath(path, root)
+            tree = ast.parse(open(path, encoding="utf8").read())
+            _Shape().visit(tree)
+            names = sorted({x.id for st in tree.body for t in (st.targets if isinstance(st, ast.Assign) else [st.target] if isinstance(st, ast.AnnAssign) else [])
+                            for x in ast.walk(t) if isinstance(x, ast.Name)})
+            funcs, nested = {}, {}
+            for q, fn in _functions(tree):
+                funcs[q] = rw.fingerprints(fn)
+                nd = sorted((n for n in rw.own_walk(fn) if isinstance(n, rw.FUNC)), key=lambda n: (n.lineno, n.col_offset))
+                if nd:
+                    nested[q] = [n.name for n in nd]
+            table[rel] = {"module_names": names, "functions": funcs, "nested": nested}
+    return table
+
+
+def directed_rewrites(tree: ast.Module, relpath: str):
+    """second stage: semantics-preserving rewrites chosen so that each function gets closer to the reference spelling (sa/canon_rw.py)."""
+    from . import canon_rw as rw
+    sh = rw.shapes().get(relpath)
+    if not sh:
+        return
+    ref_funcs = sh["functions"]
+    names_ref = _ref().get(relpath, {})
+    funcs = _functions(tree)
+    if all(q in ref_funcs for q, _ in funcs) and len(funcs) == len(ref_funcs):
+        if all(rw.fingerprints(fn) == ref_funcs[q] for q, fn in funcs):
+            return      # the module is spelled like the reference
+    rw.inline_module_constants(tree, set(sh["module_names"]))
+    if rw.inline_helpers(tree, set(ref_funcs), funcs):
+        _Shape().visit(tree)
+    for q, fn in _functions(tree):
+        if q in ref_funcs and sh["nested"].get(q):
+            rw.restore_nested_def_names(fn, sh["nested"][q])
+
+    def normalise(fn):
+        _Shape().visit(fn)
+    # innermost functions first: the text of an outer function does not contain its nested bodies
+    for q, fn in sorted(_functions(tree), key=lambda x: -x[0].count(".")):
+        ref = ref_funcs.get(q)
+        if ref is None:
+            continue
+        if rw.fingerprints(fn) == ref:
+            continue
+        known_names = {nm for names in names_ref.get(q, {}).values() for nm in names}
+        stored = {x.attr for x in rw.own_walk(fn) if isinstance(x, ast.Attribute) and isinstance(x.ctx, (ast.Store, ast.Del))}
+        rw.direct_function(fn, ref, known_names, stored, normalise)
+
+
 def canonicalise(tree: ast.Module, relpath: str) -> ast.Module:
     _Shape().visit(tree)
+    directed_rewrites(tree, relpath)
     restore_local_names(tree, relpath)
     inline_fresh_temporaries(tree, relpath)
     ast.fix_missing_locations(tree)
